@@ -22,10 +22,10 @@ from ..explore import Stats, explore_parallel
 from ..lifecycle import ATOMS, LifeHarness, LifeWorld, Oracle
 from ..vloop import HarnessError, timer_name
 
-ATOMS_PLAIN = ("H", "C", "DR", "DRESP", "PR", "ST", "BAD", "PRE", "ENC")
+ATOMS_PLAIN = ("H", "C", "DR", "DRESP", "PR", "PRESP", "ST", "BAD", "PRE", "ENC")
 ATOMS_NOISE = ("NH", "NHE", "H", "C", "DR", "DRESP", "ST", "BAD", "PRE", "TAMPER")
 PAIRS = (
-    ("DR", "ST"), ("DR", "PR"), ("DR", "H"), ("DR", "DR"), ("BAD", "ST"), ("BAD", "PR"), ("PRE", "ST"), ("ENC", "ST"),
+    ("H", "C"), ("DR", "ST"), ("DR", "PR"), ("DR", "H"), ("DR", "DR"), ("BAD", "ST"), ("BAD", "PR"), ("PRE", "ST"), ("ENC", "ST"),
     ("C", "DR"), ("H", "DR"), ("H", "BAD"), ("NH", "DR"), ("NH", "BAD"), ("TAMPER", "ST"), ("DRESP", "ST"), ("DRESP", "PR"),
 )
 
@@ -60,6 +60,17 @@ class C08Oracle(Oracle):
                 w.c08.append(f"C08:timer-fired-after-close:{entry['exc_type']} raised by a timer callback that ran after the close")  # type: ignore[attr-defined]
 
         w.loop.error_hook = on_error
+
+        def keepalive_monitor(_m: Any) -> None:
+            # evaluated after every callback: the keepalive / pong timers are released synchronously by the closing step, so at no
+            # callback boundary may the connection read CLOSED while one of them is live (they would have been armed after the close)
+            if w.state() == "CLOSED":
+                names = [timer_name(h) for h in w.loop.live_timers()]
+                bad = [n for n in names if "keep_alive" in n or "pong" in n]
+                if bad and not any(x.startswith("C08:keepalive-armed-after-close") for x in w.c08):  # type: ignore[attr-defined]
+                    w.c08.append(f"C08:keepalive-armed-after-close:{sorted(bad)} live while the connection reads CLOSED")  # type: ignore[attr-defined]
+
+        w.extra_monitors.append(keepalive_monitor)
 
     def audit(self, w: LifeWorld, when: str) -> list[str]:
         v = []
@@ -190,6 +201,8 @@ def run_injected(scn: str, inj: tuple[tuple[int, str], ...]) -> dict[str, Any]:
         for lab in labels:
             en = h.enabled(w)
             if lab not in en:
+                if not inj and lab != "time":
+                    raise HarnessError(f"scenario {scn}: step {lab!r} is not enabled in the undisturbed run (enabled: {en[:12]}...)")
                 continue
             h.apply(w, lab)
             viol = h.verdict(w)
